@@ -35,6 +35,33 @@ def sh(cmd, timeout=None, cwd=None, env=None, check=True, capture=True):
 
 
 _built = False
+# Mutation testing: KVERIF_REPO=/tmp/<worktree> runs every check against a scratch copy of the
+# repository through a private copy of the harness (built under the worktree's own directory), and
+# keeps evidence / replay files of that run out of /verif/evidence and /verif/replays.
+ALT = REPO != "/repo"
+if ALT:
+    _tag = hashlib.md5(REPO.encode()).hexdigest()[:8]
+    HARNESS_DIR = os.path.join(REPO, ".kverif_harness")
+    HARNESS = os.path.join(HARNESS_DIR, "target", "debug", "kverif")
+    WORK = os.path.join(VERIF, "work", "alt_" + _tag)
+    OUT_DIR = WORK
+else:
+    OUT_DIR = VERIF
+
+
+def _sync_alt_harness():
+    src = os.path.join(VERIF, "harness")
+    os.makedirs(os.path.join(HARNESS_DIR, "src"), exist_ok=True)
+    os.makedirs(os.path.join(HARNESS_DIR, ".cargo"), exist_ok=True)
+    for f in os.listdir(os.path.join(src, "src")):
+        a, b = os.path.join(src, "src", f), os.path.join(HARNESS_DIR, "src", f)
+        if not os.path.exists(b) or open(a).read() != open(b).read():
+            shutil.copy(a, b)
+    shutil.copy(os.path.join(src, ".cargo", "config.toml"), os.path.join(HARNESS_DIR, ".cargo", "config.toml"))
+    toml = open(os.path.join(src, "Cargo.toml")).read().replace('"/repo', '"' + REPO)
+    dst = os.path.join(HARNESS_DIR, "Cargo.toml")
+    if not os.path.exists(dst) or open(dst).read() != toml:
+        open(dst, "w").write(toml)
 
 
 def build_harness():
@@ -42,6 +69,8 @@ def build_harness():
     global _built
     if _built:
         return HARNESS
+    if ALT:
+        _sync_alt_harness()
     lock_src = os.path.join(REPO, "Cargo.lock")
     lock_dst = os.path.join(HARNESS_DIR, "Cargo.lock")
     if not os.path.exists(lock_dst):
@@ -345,17 +374,17 @@ def known_findings():
 
 
 def write_evidence(pid, tier, seed, level, coverage, wall_s, violations=0, assumptions=None):
-    os.makedirs(os.path.join(VERIF, "evidence"), exist_ok=True)
+    os.makedirs(os.path.join(OUT_DIR, "evidence"), exist_ok=True)
     ev = {"property_id": pid, "tier": tier, "seed": int(seed), "level": level,
           "coverage": coverage, "wall_s": round(float(wall_s), 2), "violations": int(violations),
           "assumptions": assumptions or []}
-    with open(os.path.join(VERIF, "evidence", pid + ".json"), "w") as f:
+    with open(os.path.join(OUT_DIR, "evidence", pid + ".json"), "w") as f:
         json.dump(ev, f, indent=1, sort_keys=True, ensure_ascii=True)
     return ev
 
 
 def write_replay(pid, name, obj):
-    d = os.path.join(VERIF, "replays")
+    d = os.path.join(OUT_DIR, "replays")
     os.makedirs(d, exist_ok=True)
     p = os.path.join(d, "%s_%s.json" % (pid, name))
     with open(p, "w") as f:
